@@ -15,6 +15,10 @@ pub fn out_dir() -> String {
 pub fn repo_dir() -> String {
     std::env::var("VERIF_REPO").unwrap_or_else(|_| "/repo".into())
 }
+/// first seed of a sweep window of `n` PRNG seeds: VERIF_SEED rotates the window (seed 0 = window starting at 0)
+pub fn sweep_base(n: u64) -> u64 {
+    (seed().max(0) as u64).wrapping_mul(n)
+}
 pub fn seed() -> i64 {
     std::env::var("VERIF_SEED").ok().and_then(|s| s.parse().ok()).unwrap_or(0)
 }
